@@ -5,6 +5,7 @@ import Driver.Suite
 import Driver.Convert
 import Driver.CL
 import Driver.ShareClass
+import Driver.Route
 open Sunrise.Driver
 
 def evalLine (line : String) : String :=
@@ -27,6 +28,10 @@ def suites : List (String × (IO.FS.Stream → IO.FS.Stream → IO Unit)) :=
   [("cl", CLSuite.run)] ++
   [("share", ShareSuite.run)] ++
   []
+def suites : List (String × (IO.FS.Stream → IO.FS.Stream → IO Unit)) := [
+  ("convert", ConvertSuite.run),
+  ("route", RouteSuite.run)
+]
 
 def main : IO Unit := do
   let out ← IO.getStdout
